@@ -190,7 +190,9 @@ func NewWorld(h *History) *World {
 	if h.Cfg.Defer {
 		opts = append(opts, dig.DeferAcyclicVerification())
 	}
-	if h.Cfg.DryRun {
+	if h.Cfg.OptNoise {
+		opts = append(opts, dig.DryRun(!h.Cfg.DryRun), dig.DryRun(h.Cfg.DryRun))
+	} else if h.Cfg.DryRun {
 		opts = append(opts, dig.DryRun(true))
 	}
 	curValMask, curAltMask = h.Cfg.ValMask, h.Cfg.AltMask
